@@ -3,7 +3,7 @@
    Model/Load.v (one per debug mode, as the library has three closure factories per container). *)
 From Coq Require Import List ZArith Bool String.
 From AV Require Import Model.Val Model.Load Proofs.LoadProofs Proofs.ModesProofs.
-From AV Require Model.Layout Model.CrownSem Proofs.CrownModes.
+From AV Require Model.Layout Model.CrownSem Proofs.CrownModes Proofs.CrownTrails.
 Import ListNotations.
 
 (* all three modes accept the same data and return the same value, for every type, datum and coercion mode *)
@@ -58,3 +58,15 @@ Theorem C06_model_loader_modes_agree : forall (info : CrownSem.finfos) (pol : La
   CrownModes.loaded (CrownSem.load info pol m1 c d) = CrownModes.loaded (CrownSem.load info pol m2 c d).
 Proof. exact CrownModes.model_loader_modes_agree. Qed.
 Print Assumptions C06_model_loader_modes_agree.
+
+
+(* third sentence for generated model loaders, in its strongest form: the single error raised under DISABLE and FIRST is
+   the FIRST error collected under ALL - same class (with the same key set / length), same trail under FIRST, no trail
+   under DISABLE (`retrail`) - and conversely whenever ALL collects errors the other two modes raise its first one. *)
+Theorem C06_model_first_error_is_first_of_all : forall (info : CrownSem.finfos) (pol : Layout.policy) md c d, md <> CrownSem.All ->
+  (forall e, CrownSem.load info pol md c d = CrownSem.Single e ->
+     exists e0 es, CrownSem.load info pol CrownSem.All c d = CrownSem.Group (e0 :: es) /\ e = CrownTrails.retrail md e0) /\
+  (forall e0 es, CrownSem.load info pol CrownSem.All c d = CrownSem.Group (e0 :: es) ->
+     CrownSem.load info pol md c d = CrownSem.Single (CrownTrails.retrail md e0)).
+Proof. exact CrownTrails.model_first_is_first_of_all. Qed.
+Print Assumptions C06_model_first_error_is_first_of_all.
